@@ -103,6 +103,7 @@ pub fn impl_events(e: &'static Encoding, stream: &[u8], sink16: bool) -> Result<
 
 fn emit(out: &mut Out, e: &'static Encoding, stream: &[u8]) {
     let lhs = format!("specdec {} {}", ident(e), hex(stream));
+    trace_op(&lhs);
     out.oracle_evals += 1;
     match catch(|| (impl_events(e, stream, true), impl_events(e, stream, false))) {
         Ok((Ok(a), b)) => {
